@@ -54,7 +54,20 @@ def fnnls_cholesky(
         P_number = np.arange(len(P), dtype="int")
         P_inorder = P_number[P_initial]
         s_chol[P] = lstsq((ZTZ)[P][:, P], (ZTx)[P])
-        d = s_chol.clip(min=0)
+
+        # The guess of the passive set may contain parameters whose solution is not positive. These are
+        # removed (and the reduced problem re-solved) until the passive set is feasible, so that the main
+        # loop starts from a valid active-set state with a consistent dual vector w.
+
+        while np.any(P) and np.min(s_chol[P]) <= tolerance:
+            P[s_chol <= tolerance] = False
+            s_chol[:] = 0.0
+            if np.any(P):
+                s_chol[P] = lstsq((ZTZ)[P][:, P], (ZTx)[P])
+
+        P_inorder = P_number[P]
+        d = s_chol.copy()
+        w = ZTx - (ZTZ) @ d
     else:
         P_inorder = np.array([], dtype="int")
 
